@@ -20,7 +20,7 @@ theorem inv_next {s : Sys} (hinv : Inv s) (c : Cmd) : Inv (s.next c) := by
     · obtain ⟨hp, hr⟩ := exec_stored_iff.mp hex
       obtain ⟨s'', hrun, hinv'⟩ := readySeq_run hinv (process_readySeq hinv hok hp)
       rw [hr] at hrun; cases hrun; exact hinv'
-    · exact absurd hex (bad_revoke_not_stored hinv hok)
+    · rw [bad_revoke_not_stored hinv hok hex]; exact hinv
 
 theorem reachable_inv {s : Sys} (h : Reachable s) : Inv s := by
   induction h with
